@@ -427,6 +427,8 @@ def _summand(g: G) -> Any:
         return g.dec_float()
     if r < 0.9:
         return str(g.ints())
+    if r < 0.95:
+        return g.r.choice(["foo", "", "x1", "one", "1,5", "--2"])  # not numeric elements: they do not count
     return None
 
 
@@ -734,8 +736,18 @@ def g_strarg(g: G) -> dict[str, Any]:
     return c
 
 
+def g_hasidx(g: G) -> dict[str, Any]:
+    """`has` against `find_index` / `find` on arrays of anything: whatever the three mean for scalars,
+    they must tell the same story (has <=> an index was found)."""
+    n = g.r.randint(0, 5)
+    left = [g.one(MIXED) if g.p(0.8) else {"k": g.one(MIXED)} for _ in range(n)]
+    key = g.one([0, 1, "", "a", "k", "0", False, True, 2])
+    args = [key] if g.p(0.6) else [key, g.one(MIXED)]
+    return case("hasidx", "has", "scalar", left, args)
+
+
 GENERATORS = [
-    g_strarg,
+    g_strarg, g_hasidx,
     g_sort, g_sort, g_reverse, g_uniq, g_compact, g_select, g_select, g_agree, g_agree, g_map, g_sum, g_first_last,
     g_slice, g_concat, g_split_join, g_split_join, g_url, g_b64, g_escape, g_case_strip, g_case_strip, g_affix,
     g_replace, g_replace, g_truncate, g_truncate, g_int_arith, g_int_arith, g_dec_arith, g_dec_arith, g_float_mod,
@@ -783,7 +795,7 @@ def defect_shapes(c: dict[str, Any]) -> set[str]:  # noqa: PLR0912
     """Which known-defect input shapes this case has (pure function of the case)."""
     out: set[str] = set()
     law, flt, form, left, args = c["law"], c["filter"], c["form"], c["left"], c["args"]
-    if law == "strarg":
+    if law in ("strarg", "hasidx"):
         return out  # a relation between two calls of the filter, not a definition of its result
     if flt == "truncate":
         num = args[0] if args else 50
@@ -842,7 +854,7 @@ class C19(Prop):
         "narrowed: negative slice lengths and starts before -len, sort/sort_natural with nil values or numeric "
         "keys plus missing keys, property values starting with U+10FFFF, uniq with both a missing and a nil "
         "property, non-hash items for key-based filters, nested arrays outside concat/map/sum/first/last/slice, "
-        "bool summands, non-numeric strings in sum, empty-needle replace on an empty string",
+        "bool summands, empty-needle replace on an empty string",
         "sort orders strings by code point (doc example + CTS 'sort a string'); sort_numeric compares the tuples "
         "of non-negative integers found in the string form (doc example), digit-less and missing items last; "
         "stability is demanded for all three sorts (DESIGN law; docs only say 'probably in the same order')",
@@ -1124,6 +1136,8 @@ class C19(Prop):
         for v in vals:
             if v is None or isinstance(v, dict):
                 continue
+            if isinstance(v, str) and v in ("foo", "", "x1", "one", "1,5", "--2"):
+                continue  # "the sum of all numeric elements": a string that is no number is not one of them
             if M.num_kind(v) == "float":
                 all_int = False
             total, d = M.dec_op("plus", total, M.spelling(v))
@@ -1233,6 +1247,20 @@ class C19(Prop):
         self._expect(res, c, "escape_once . escape = escape", run.apply(form, "escape_once", esc[1], []), esc[1])
 
     # ------------------------------------------------------------------ string definitions
+
+    def _law_hasidx(self, c: dict[str, Any], res: Result, run: Run) -> None:
+        left, args = c["left"], c["args"]
+        data = {"x": left, "a": args[0], "b": args[1] if len(args) > 1 else None}
+        call = ": a" + (", b" if len(args) > 1 else "")
+        h = run.value("x | has" + call, data)
+        fi = run.value("x | find_index" + call, data)
+        res.nontrivial = any(not bool(i) for i in left)
+        if h[0] != "ok" or fi[0] != "ok":
+            if (h[0] == "ok") != (fi[0] == "ok"):
+                self._bad(res, c, "has <=> find_index", f"has={h} find_index={fi}")
+            return
+        if bool(h[1]) != (fi[1] is not None):
+            self._bad(res, c, "has <=> find_index", f"has={h[1]!r} but find_index={fi[1]!r}")
 
     def _law_strarg(self, c: dict[str, Any], res: Result, run: Run) -> None:
         """f(x, .., v, ..) == f(x, .., text(v), ..) for a parameter the reference documents as <string>."""
